@@ -18,6 +18,7 @@ func init() { families["timeline"] = famTimeline }
 func famTimeline(w *World) {
 	w.Grid = 10 * time.Millisecond
 	w.NoFault = true
+	w.PeriodicTraffic = true // health-check pings never cease
 	w.drawSchedule(false)
 	if scnChance(1, 2) {
 		w.timelineIdle()
